@@ -288,3 +288,17 @@ prop(
     "C19-R7 every debug_checked_assume! (a panic with debug assertions, unreachable_unchecked without) is implied by a reviewed invariant with its constant on the safe side, so the two profiles cannot diverge on a legal value.",
     not_decided="no run-time behaviour is compared across configurations; the claim is as strong as the per-property structural claims",
 )
+
+
+# ---- explanations of the rules added in round 6 (appended so that the texts above stay as reviewed) ----
+_MORE = {
+    "C05": " C05-R10 (generated corpus, rustc's type checker decides) queries whose parameters carry one or several #[cfg] attributes are expanded for exactly the archetypes their enabled parameters select.",
+    "C09": " C09-R6 also covers every entry that takes a direct key (contains, resolve, view, borrow, destroy, find): inside gecs a direct key is validated only by a function that itself takes a direct key -- in the end the direct resolver, which compares the archetype version -- never by re-deriving an Entity from the dense index.",
+    "C10": " C10-R8 if unwinding out of a panicking cell drop runs a guard that goes on dropping cells, a store into that guard inside the loop dominates the drop_in_place call (its cursor is past the cell before the cell's drop runs), so the panicking cell is not dropped a second time.",
+    "C04": " C10-R8 (shared with C10) a continuation guard on the unwind path of a cell drop has its cursor past the cell before the drop is called.",
+    "C12": " C12-R6 clone carries slot i over for every i in 0..capacity next to the source's len (a partly copied slot array makes the clone's len() disagree with the entities its handles resolve to).",
+    "C15": " C15-R9 the cfg-decorated half of the declaration corpus: the enabled items carry the ids the discriminant rule assigns over the enabled items alone, and a declaration is rejected iff the same declaration without its disabled items is.",
+    "C19": " C19-R8 no bare arithmetic operator (and no overflow assert) on the way to a successor generation: with one, the build profile (-C overflow-checks) instead of the wrapping_version feature would decide whether the documented overflow panic happens; C08-R2 (shared with C08) the successor is checked_add(1)+panic without the feature in debug and release alike.",
+}
+for _k, _v in _MORE.items():
+    PROPS[_k]["explanation"] = PROPS[_k]["explanation"].rstrip() + _v
